@@ -1,7 +1,7 @@
 CFG = {
-        "gen": [],
-        "props": ["EraVerif.Props.C15"],
-        "required_theorems": [
+        "gen": ["LimiterFns"],
+        "props": ["EraVerif.Props.C15", "EraVerif.Props.C15gen"],
+        "required_theorems": ["gen_advance_eq", "gen_usize_or_max_eq", "gen_advance_no_rewind", "gen_advance_ticks_monotone", 
             # Part A: the limiter
             "state_inv", "drop_never_underflows", "window_bound", "consumption_window_bound", "window_bound_tight",
             "fifo", "served_is_queue_head", "cancel_consumes_nothing", "unserved_waits_consume_nothing",
@@ -9,7 +9,7 @@ CFG = {
             # Part B: per connection and RPC kind (composition)
             "opens_rate_limited", "established_rate_limited", "requests_started_window_bound",
             "inflight_le_INFLIGHT", "handler_only_after_open", "one_permit_per_open"],
-        "technique": "Lean 4 theorems (induction over arbitrary operation / event sequences, potential argument for the "
+        "technique": "State::advance / usize_or_max regenerated from limiter/mod.rs on every run (tools/translate_limiter.py -> Gen/LimiterFns) and proved equal to the model's refill rule (Props/C15gen); Lean 4 theorems (induction over arbitrary operation / event sequences, potential argument for the "
                      "window bound) on an executable transcription of limiter/mod.rs and on a small model of "
                      "reusable_stream.rs:262-307 + rpc/mod.rs:191-243; differential run against the real Limiter "
                      "(ManualClock, hand-polled futures) and against the real rpc::Service server over an in-memory transport",
